@@ -12,6 +12,7 @@
 -/
 import GoldilocksVerif.Lemmas.ParGenNtt
 import GoldilocksVerif.Lemmas.ParCopyL
+import GoldilocksVerif.Lemmas.BridgeParcpyStep
 
 namespace GoldilocksVerif.ParGen
 open GoldilocksVerif Gen.NttGen GoldilocksVerif.BridgeNtt GoldilocksVerif.ParCopy
@@ -25,9 +26,15 @@ def genChunk (size : BitVec 64) (nt : Int) : BitVec 64 :=
 def chunkBody (dst src : Ptr) (size ct : BitVec 64) (i : Nat) (hp : Heap) : Option Heap :=
   (parcpy_loop1 dst src size ct (hp, BitVec.ofNat 64 i)).map (fun r => r.2.1)
 
+theorem genChunk_eq (size : BitVec 64) (nt : Int) : genChunk size nt = chunkBV size nt := by
+  unfold genChunk chunkBV
+  chunk_top nt
+
+/-- the generated function is its chunk loop (through `BridgeNtt.parcpy_top`: no dependence on how the source spells the clamp) -/
 theorem parcpy_unfold (fuel : Nat) (hp : Heap) (dst src : Ptr) (size : BitVec 64) (nt : Int) :
     parcpy fuel hp dst src size nt =
-      (Loop.whileM (parcpy_loop1 dst src size (genChunk size nt)) fuel (hp, 0#64)).bind (fun st => some st.1) := rfl
+      (Loop.whileM (parcpy_loop1 dst src size (genChunk size nt)) fuel (hp, 0#64)).bind (fun st => some st.1) := by
+  rw [parcpy_top, genChunk_eq]
 
 /-- the hand model's chunk on block contents: `memcpy(&dst[i], &src[i], len)` -/
 def cpyChunk (size : Nat) (nt : Int) (i : Nat) (s d : Block) : Block :=
@@ -72,32 +79,31 @@ theorem chunk_le (size : Nat) (nt : Int) : chunk size nt ≤ size := by
     rw [ht, hs, Nat.succ_mul, Nat.mul_succ]
     omega
 
-/-- one chunk of the generated loop, from any heap: the copy, and the next start -/
+/-- one chunk of the generated loop, from any heap: the copy, and the next start (through `BridgeNtt.parcpy_step`, the
+    semantic reading of the lifted body: no dependence on how the source spells the chunk length) -/
 theorem chunk_step (X : Heap) (D S : Nat) (size ct : BitVec 64) (i : Nat) (hi : i < size.toNat)
-    (hs8 : size.toNat * 8 < 2 ^ 64) (hc8 : ct.toNat * 8 < 2 ^ 64) :
+    (hs8 : size.toNat * 8 < 2 ^ 64) (hc : ct.toNat ≤ size.toNat) :
     parcpy_loop1 ⟨D, 0⟩ ⟨S, 0⟩ size ct (X, BitVec.ofNat 64 i) =
       some (true, (X.setBlock D (Model.Ntt.copyRow (X.block D) i (X.block S) i
         (if size.toNat - i < ct.toNat then size.toNat - i else ct.toNat)), BitVec.ofNat 64 (i + ct.toNat))) := by
   have e0 : (BitVec.ofNat 64 i).toNat = i := ofNat_toNat_lt i (by omega)
-  have hlt : decide (BitVec.ofNat 64 i < size) = true := by
-    rw [decide_eq_true_eq, BitVec.lt_def, e0]; exact hi
-  have esub : (size - BitVec.ofNat 64 i).toNat = size.toNat - i := by
-    rw [BitVec.toNat_sub, e0]; omega
+  have hlt : BitVec.ofNat 64 i < size := by rw [BitVec.lt_def, e0]; exact hi
   have enext : BitVec.ofNat 64 i + ct = BitVec.ofNat 64 (i + ct.toNat) := by
     apply BitVec.eq_of_toNat_eq
     rw [BitVec.toNat_add, BitVec.toNat_ofNat, BitVec.toNat_ofNat]
     omega
-  unfold parcpy_loop1
-  dsimp only
-  rw [if_pos hlt, enext, e0]
+  have hmin : min (size.toNat - i) ct.toNat = (if size.toNat - i < ct.toNat then size.toNat - i else ct.toNat) := by
+    split <;> omega
+  rw [parcpy_step _ _ _ _ _ _ hs8 hc, if_pos hlt, enext, e0, hmin]
   simp only [Heap.copy_eq, Ptr.add_blk, Ptr.add_off, Nat.zero_add, copyRow_eq]
-  by_cases hc : size.toNat - i < ct.toNat
-  · have hd : decide (size - BitVec.ofNat 64 i < ct) = true := by
-      rw [decide_eq_true_eq, BitVec.lt_def, esub]; exact hc
-    rw [if_pos hd, if_pos hc, words_toNat _ (by rw [esub]; omega), esub]
-  · have hd : ¬ (decide (size - BitVec.ofNat 64 i < ct) = true) := by
-      rw [decide_eq_true_eq, BitVec.lt_def, esub]; exact hc
-    rw [if_neg hd, if_neg hc, words_toNat _ hc8]
+
+/-- the test of the generated loop fails from `size` on -/
+theorem chunk_exit (X : Heap) (dst src : Ptr) (size ct : BitVec 64) (i : Nat) (hi : size.toNat ≤ i) (hi64 : i < 2 ^ 64)
+    (hs8 : size.toNat * 8 < 2 ^ 64) (hc : ct.toNat ≤ size.toNat) :
+    parcpy_loop1 dst src size ct (X, BitVec.ofNat 64 i) = some (false, (X, BitVec.ofNat 64 i)) := by
+  have e0 : (BitVec.ofNat 64 i).toNat = i := ofNat_toNat_lt i hi64
+  have hlt : ¬ (BitVec.ofNat 64 i < size) := by rw [BitVec.lt_def, e0]; omega
+  rw [parcpy_step _ _ _ _ _ _ hs8 hc, if_neg hlt]
 
 section seq
 variable (hp : Heap) (D S : Nat) (hD : D < hp.size) (hne : D ≠ S) (size : BitVec 64) (nt : Int)
@@ -131,16 +137,10 @@ theorem parcpy_loop_seq (ct : BitVec 64) (hct : ct.toNat = chunk size.toNat nt) 
   | zero =>
     intro fuel i B h1 h2 hfu
     obtain ⟨fuel', rfl⟩ : ∃ g, fuel = g + 1 := ⟨fuel - 1, by simp [startsAux] at hfu; omega⟩
-    have e0 : (BitVec.ofNat 64 i).toNat = i := ofNat_toNat_lt i (by omega)
-    have hlt : decide (BitVec.ofNat 64 i < size) = false := by
-      rw [decide_eq_false_iff_not, BitVec.lt_def, e0]; omega
     refine ⟨BitVec.ofNat 64 i, ?_⟩
     rw [Loop.whileM_stop _ _ _ (hp.setBlock D B, BitVec.ofNat 64 i)]
     · rfl
-    · unfold parcpy_loop1
-      dsimp only
-      rw [hlt]
-      rfl
+    · exact chunk_exit _ _ _ size ct i (by omega) (by omega) hs8 (by rw [hct]; omega)
   | succ f ih =>
     intro fuel i B h1 h2 hfu
     have e0 : (BitVec.ofNat 64 i).toNat = i := ofNat_toNat_lt i (by omega)
@@ -161,15 +161,10 @@ theorem parcpy_loop_seq (ct : BitVec 64) (hct : ct.toNat = chunk size.toNat nt) 
     · have hst : startsAux size.toNat ct.toNat (f + 1) i = [] := by rw [startsAux, if_neg hi]
       rw [hst] at hfu ⊢
       obtain ⟨fuel', rfl⟩ : ∃ g, fuel = g + 1 := ⟨fuel - 1, by simp at hfu; omega⟩
-      have hlt : decide (BitVec.ofNat 64 i < size) = false := by
-        rw [decide_eq_false_iff_not, BitVec.lt_def, e0]; exact hi
       refine ⟨BitVec.ofNat 64 i, ?_⟩
       rw [Loop.whileM_stop _ _ _ (hp.setBlock D B, BitVec.ofNat 64 i)]
       · rfl
-      · unfold parcpy_loop1
-        dsimp only
-        rw [hlt]
-        rfl
+      · exact chunk_exit _ _ _ size ct i (by omega) (by omega) hs8 (by rw [hct]; omega)
 
 include hD hne hnt hs8 in
 /-- **the generated `parcpy`** is the fold of the hand model's chunk over the hand model's chunk starts -/
